@@ -118,6 +118,10 @@ func (cv0 *HookConfigV0) ConvertAndCheck(c *HookConfig) error {
 			kubeConfig.BindingName = kubeCfg.Name
 		}
 		kubeConfig.Queue = "main"
+		// Binding context for v0 is built from the full object (resourceNamespace, resourceKind, resourceName),
+		// so objects should be kept in memory.
+		kubeConfig.KeepFullObjectsInMemory = true
+		kubeConfig.Monitor.KeepFullObjectsInMemory = true
 
 		c.OnKubernetesEvents = append(c.OnKubernetesEvents, kubeConfig)
 	}
